@@ -183,16 +183,16 @@ Print Assumptions C08_block_R_scalar.
 
 (* over R: the theorems apply to block_R, and the selections are what the documentation says *)
 Example C08_example_R_first :
-  selection (AFirst 2 (1/2)%R) block_R = [(0, 1/2); (2, 1)]%R /\
-  selection (ALast 2 (1/2)%R) block_R = [(3, 1/2); (2, 1)]%R /\
-  trigger_calls (run (AFirst 2 (1/2)%R) block_R) = [(0, 1/2); (2, 1)]%R.
+  selection (AFirst 2 (1/2)%R) block_R = [(0%nat, 1/2); (2%nat, 1)]%R /\
+  selection (ALast 2 (1/2)%R) block_R = [(3%nat, 1/2); (2%nat, 1)]%R /\
+  trigger_calls (run (AFirst 2 (1/2)%R) block_R) = [(0%nat, 1/2); (2%nat, 1)]%R.
 Proof. exact example_R_first. Qed.
 Print Assumptions C08_example_R_first.
 
 Example C08_example_R_highest :
-  selection (AHighest 3) block_R = [(2, 1); (0, 1/2); (3, 1/2)]%R /\
-  selection (ALowest 2) block_R = [(5, 1/4); (0, 1/2)]%R /\
-  trigger_calls (run (AHighest 3) block_R) = [(2, 1); (0, 1/2); (3, 1/2)]%R.
+  selection (AHighest 3) block_R = [(2%nat, 1); (0%nat, 1/2); (3%nat, 1/2)]%R /\
+  selection (ALowest 2) block_R = [(5%nat, 1/4); (0%nat, 1/2)]%R /\
+  trigger_calls (run (AHighest 3) block_R) = [(2%nat, 1); (0%nat, 1/2); (3%nat, 1/2)]%R.
 Proof. exact example_R_highest. Qed.
 Print Assumptions C08_example_R_highest.
 
